@@ -417,12 +417,35 @@ impl<'a> Client<'a> {
         self.dir_compare(idx, &shape, false);
     }
 
+    /// Non-quiescent sample of the files-per-level vector (the interesting shapes, e.g. >= 4
+    /// level-0 files over a multi-file level 1, only exist while compaction is pending).
+    fn sample_shape(&mut self) {
+        let Some(db) = self.db.as_ref() else { return };
+        if let Called::Ok(shape) = call("shape", || db.verif_shape()) {
+            let mut per_level = [0usize; 7];
+            for f in &shape.files {
+                per_level[f.level] += 1;
+            }
+            with_out(self.out, |o| {
+                if per_level[0] >= 4 && per_level[1] >= 2 {
+                    o.stats.probe("l0_ge4_over_l1_ge2");
+                }
+                if per_level[0] >= 8 {
+                    o.stats.probe("l0_slowdown_reached");
+                }
+            });
+        }
+    }
+
     pub fn step(&mut self, idx: usize, op: &Op) {
         if self.dead || rt::is_poisoned() {
             return;
         }
         if self.db.is_none() {
             return;
+        }
+        if idx % 8 == 7 {
+            self.sample_shape();
         }
         with_out(self.out, |o| {
             o.stats.ops += 1;
